@@ -239,7 +239,7 @@ def write_evidence(prop, tier, seed, ws, results, meta, violations, inconclusive
             if r.status == "ok":
                 states += b.get("states", 1)
                 transitions += b.get("transitions", 1)
-        if r.status == "ok" and all(r.covers.values()):
+        if r.status == "ok" and all(v for k, v in r.covers.items() if not k.rstrip('"').endswith("(opt)")):
             nontrivial.add((name, g["name"] if g else ""))
         harness_rows.append(row)
     not_built = [dict(automaton=g["name"], error=g.get("error")) for g in ws.gen if not g.get("built")]
@@ -255,7 +255,7 @@ def write_evidence(prop, tier, seed, ws, results, meta, violations, inconclusive
         evaluations=len(results), distinct_nontrivial=len(nontrivial),
         rule="one evaluation = one Kani harness decided by CBMC over all values of its symbolic inputs; "
              "distinct = distinct (harness, automaton) pairs; non-trivial = verdict SUCCESSFUL with every "
-             "kani::cover! witness SATISFIED",
+             "essential kani::cover! witness SATISFIED (witnesses tagged (opt) depend on the automaton and are only recorded)",
         exhaustive=False,
         explanation="states = reference states (or symbolic-table instances) quantified over by SUCCESSFUL "
                     "harnesses; transitions = states x labels decided (256 bytes, or all %d Unicode scalar values)" % plans.ALL_CHARS,
